@@ -26,6 +26,16 @@ Classes: dataclass fields `name: ann [= const | field(default=const[, init=False
   argument must then be a lambda with that many plain parameters, written at the call site; inside the helper the parameter may
   only be CALLED, `q(e1, ...)`: the arguments are evaluated (and checked against T1, ...), then the body of the lambda is
   translated in the scope where the lambda was written, its parameters standing for the argument values, and checked against T.
+Private module-level functions (one leading underscore, e.g. _component_ids, _ground_node) are translated like any other function
+  (g_<name>) and are listed, after the section, in the hint database gen_circuit_helpers (`Create HintDb` always; `Hint Unfold`
+  when there are any), so that the proofs look through them whatever their names.
+  Model view (MODEL_VIEWS = {frequency_components: frequencies}): the model names the function that frequency_components applies to
+  every component g_frequency_components_frequencies, after the inner def `frequencies` (captured parameters first).  When
+  frequency_components has no inner def of that name and calls exactly one private module-level function H, exactly once (and does
+  not mention H otherwise), with distinct plain names as arguments, one per parameter of H, the translator also emits
+  `Definition g_frequency_components_frequencies <the arguments that are never-assigned parameters of frequency_components, in its
+  order> <the other parameters of H, in H's order> := g_H <the parameters in H's order>` (also in gen_circuit_helpers).  In every
+  other case no such definition exists and the statements naming it do not compile (e.g. an inner def under another name).
 Types (from annotations / inference): float -> R, bool, str -> label, Component -> comp, Circuit, list[T], np.ndarray (parameter
   annotation only: a complex array -> list C), complex C, int literals, np.floor results (Z), len / index results (nat),
   Network -> network C, NetworkSolution -> solution C, class instances, time functions; three kinds of locals that have no Coq
@@ -94,6 +104,8 @@ NETSOL_METHODS = {'get_voltage': 'cplx', 'get_current': 'cplx', 'get_potential':
 SPECIAL = {'__post_init__': 'post_init', '__getitem__': 'getitem'}
 # private methods (one leading underscore) are helpers and are INLINED at their call sites, except those the model names:
 KEPT_HELPERS = {'_spectrum'}
+# functions whose inner def the model names (g_<F>_<inner>): see model_view
+MODEL_VIEWS = {'frequency_components': 'frequencies'}
 EXPECTED_IMPORTS = {
     'circuit.py': {
         'np': ('import', 'numpy'), 'transformers': ('from', 1, 'transformers', 'transformers'),
@@ -158,6 +170,7 @@ class Module:
         self.defaults = {}        # coq variable name -> literal text
         self.imports = {}         # names bound by the imports of the file being translated
         self.n = 0
+        self.private_functions = []   # Coq names of the private module-level functions and of the model's views of them
 
 
 class Fn:
@@ -1497,6 +1510,38 @@ def check_sources(src):
         raise Unsupported(f'{path}: class Component not found')
 
 
+def model_view(mod, f, path, info, view):
+    """the model names the function that F = frequency_components applies to every component g_F_<view>, after the inner def of
+    that name.  When F has no inner def <view> and its body calls exactly one PRIVATE module-level function H (one leading
+    underscore), exactly once, with plain names as arguments, the same Coq name is emitted as a view of g_H with the parameter
+    list an inner def would have: the arguments that are never-assigned parameters of F first (in F's order: the `captured`
+    ones), then the other parameters of H in H's order.  Anything else: no view (the statements naming it count as broken)."""
+    calls = [c for c in ast.walk(f) if isinstance(c, ast.Call) and isinstance(c.func, ast.Name) and c.func.id.startswith('_')
+             and not c.func.id.startswith('__') and c.func.id in mod.functions]
+    if len(calls) != 1:
+        return
+    c = calls[0]
+    h = mod.functions[c.func.id]
+    uses = [n for n in ast.walk(f) if isinstance(n, ast.Name) and n.id == c.func.id]
+    if len(uses) != 1 or c.keywords or len(c.args) != len(h.params) or not all(isinstance(x, ast.Name) for x in c.args) \
+            or len({x.id for x in c.args}) != len(c.args):
+        return
+    assigned = {t.id for st in ast.walk(f) for t in ast.walk(st) if isinstance(t, ast.Name) and isinstance(t.ctx, ast.Store)}
+    fparams = [p[0] for p in info.params]
+    by_arg = {x.id: hp for x, hp in zip(c.args, h.params)}          # argument name -> (parameter of H, type, default)
+    captured = [a for a in fparams if a in by_arg and a not in assigned]
+    own = [x.id for x in c.args if x.id not in captured]
+    order = captured + own
+    name = f'{info.coq}_{view}'
+    pars = ' '.join(f'(v_{by_arg[a][0]} : {coq_type(by_arg[a][1])})' for a in order)
+    rel = os.path.join(*path.split(os.sep)[-2:])
+    mod.out.append(f'(* the function that {f.name} applies to every component, under the name an inner def {view} would have: '
+                   f'{c.func.id}   ({rel}:{h.node.lineno}) *)\n'
+                   f'Definition {name} {pars} : res {coq_type(h.ret)} :=\n  {h.coq} '
+                   + ' '.join(f'v_{hp[0]}' for hp in h.params) + '.\n')
+    mod.private_functions.append(name)
+
+
 def translate_module(mod, src, fname):
     path = os.path.join(src, 'Circuit', fname)
     tree = parse(path)
@@ -1545,9 +1590,14 @@ def translate_module(mod, src, fname):
             if not IDENT.match(st.name):
                 raise Unsupported(f'{where(st, path)}: function name {st.name}')
             info = FunInfo(st.name, f'g_{st.name}', [], st, path)
-            Fn(mod, st, path, info, mode='function', visible=visible).translate()
+            fn = Fn(mod, st, path, info, mode='function', visible=visible)
+            fn.translate()
             mod.functions[st.name] = info
             visible.add(st.name)
+            if st.name.startswith('_'):
+                mod.private_functions.append(info.coq)
+            if st.name in MODEL_VIEWS and MODEL_VIEWS[st.name] not in fn.local_funcs:
+                model_view(mod, st, path, info, MODEL_VIEWS[st.name])
             continue
         raise Unsupported(f'{where(st, path)}: top-level statement {ast.unparse(st).splitlines()[0][:70]}')
 
@@ -1604,4 +1654,8 @@ def generate(src):
         dfl += (f'Variable {var} : R.        (* the value of the parameter default {lit} *)\n'
                 f'Definition {var}_literal : string := "{lit}".\n')
     text = HEADER.replace('@DEFAULTS@', dfl) + '\n'.join(mod.out) + '\nEnd GenCircuit.\n'
+    text += ('\n(* the private module-level functions (one leading underscore) and the views of them under the names of the model: the\n'
+             '   proofs look through them, whatever their names (`autounfold with gen_circuit_helpers`) *)\nCreate HintDb gen_circuit_helpers.\n')
+    if mod.private_functions:
+        text += '#[global] Hint Unfold ' + ' '.join(mod.private_functions) + ' : gen_circuit_helpers.\n'
     return {'CircuitGen.v': text}
